@@ -54,6 +54,17 @@ def obligations(tier):
     if tier == 'thorough':
         for (b1, n1), (b2, n2) in [(c1, c2) for c1 in cases for c2 in cases]:
             bind = {k + '1': v for k, v in b1.items()} | {k + '2': v for k, v in b2.items()} | {'g0': 0, 'l0': 1}
+            wide = (n1.startswith('change_') and (n2.startswith('change_') or n2 in ('remove_objects', 'add_objects'))) or \
+                   (n1 in ('remove_objects', 'add_objects') and n2 == 'change_unique+update')
+            if wide:
+                # these prefixes do not finish as one query within 900 s (measured): one process per third operation
+                for b3, n3 in cases:
+                    obs.append(Ob(f'C11.three.{n1}.{n2}.{n3}', 'harness.C11', 'table_three_ops',
+                                  bind=bind | {k + '3': v for k, v in b3.items()}, timeout=900, functions=F, twin=False,
+                                  bounds=f'3 objects (o0 starts with group key 0 / list key value 1; the operations may change both), '
+                                         f'operation "{n1}", then "{n2}", then "{n3}", each with any operands',
+                                  claim='same over 3-operation sequences'))
+                continue
             obs.append(Ob(f'C11.three.{n1}.{n2}.any', 'harness.C11', 'table_three_ops', bind=bind, timeout=900, functions=F, twin=False,
                           bounds=f'3 objects (o0 starts with group key 0 / list key value 1; the operations may change both), operation '
                                  f'"{n1}", then "{n2}", then ANY operation with any operands',
